@@ -26,10 +26,11 @@ class Acc:
         self.present, self.typ, self.out, self.edge = present, typ, out, edge
 
 
-def acc_pre(vars_):
+def acc_pre(vars_, OM=None):
     P, T, O, E = vars_
     F = z3.BoolVal(False)
-    return Acc(lambda n: P.get(n, F), lambda n: T[n] if n in T else z3.IntVal(sg.MISSING), lambda n: O.get(n, F), lambda u, v: E.get((u, v), F))
+    out = (lambda n: O.get(n, F)) if OM is None else (lambda n: z3.And(O[n], z3.Not(OM[n])) if n in O else F)
+    return Acc(lambda n: P.get(n, F), lambda n: T[n] if n in T else z3.IntVal(sg.MISSING), out, lambda u, v: E.get((u, v), F))
 
 
 def acc_sym(g):
@@ -81,7 +82,7 @@ def spec_of(state):
     return {"nodes": {n: list(v) for n, v in sorted(nodes.items())}, "edges": sorted(map(list, edges))}
 
 
-def run(ctx, tag, U, vars_, pre, bbs, op, posts, split=(0, 0), conf_every=1, detail=None, normalize_ret=None, compare_ret=True, reachable=None, conf_extra=None):
+def run(ctx, tag, U, vars_, pre, bbs, op, posts, split=(0, 0), conf_every=1, detail=None, normalize_ret=None, compare_ret=True, reachable=None, conf_extra=None, OM=None):
     """bbs: dict inst -> (ins, outs) (concrete registry);  op(c) -> value;  posts(preA, postA, outcome, names) -> [(name, formula, sig, what)]"""
     import circuitgraph as cg
 
@@ -91,7 +92,7 @@ def run(ctx, tag, U, vars_, pre, bbs, op, posts, split=(0, 0), conf_every=1, det
     def mkbbs():
         return {k: cg.BlackBox("bbtype_" + k, list(v[0]), list(v[1])) for k, v in bbs.items()}
 
-    preA = acc_pre(vars_)
+    preA = acc_pre(vars_, OM)
 
     mode = {"pin": False}
 
@@ -101,6 +102,7 @@ def run(ctx, tag, U, vars_, pre, bbs, op, posts, split=(0, 0), conf_every=1, det
     def body(o, owns):
         g = sg.SymDiGraph(o, U, vars_)
         g.pin_types = mode["pin"]
+        g.OM = OM
         c = cg.Circuit(name="sym", graph=g, blackboxes=mkbbs())
         out = run_op(op, c)
         if out.kind == "raise" and out.exc in ("TypeError", "AttributeError", "NotImplementedError") and owns():
@@ -109,12 +111,12 @@ def run(ctx, tag, U, vars_, pre, bbs, op, posts, split=(0, 0), conf_every=1, det
             # randomly completed pre-states of the path condition and checking the post-conditions concretely.  This is sampling,
             # not a solver verdict: a violation found this way is a real counterexample; finding none leaves the path undecided.
             m0 = o.model()
-            r0 = sg.materialize(vars_, m0, mkbbs())
+            r0 = sg.materialize(vars_, m0, mkbbs(), OM=OM)
             if run_op(op, r0).key()[:2] != out.key()[:2]:
                 import random as _random
                 rng = _random.Random(f"{tag}-{ctx.r['counters'].get('paths_sampled_concretely', 0)}")
                 P_, T_, O_, E_ = vars_
-                bvars = list(P_.values()) + list(O_.values()) + list(E_.values())
+                bvars = list(P_.values()) + list(O_.values()) + list(E_.values()) + (list(OM.values()) if OM else [])
                 ivars = [(t_, 0, sg.MISSING) for t_ in T_.values()]
                 ctx.count("paths_sampled_concretely")
                 found = False
@@ -122,7 +124,7 @@ def run(ctx, tag, U, vars_, pre, bbs, op, posts, split=(0, 0), conf_every=1, det
                     mm = o.random_model(bvars, ivars, rng)
                     if mm is None:
                         break
-                    real = sg.materialize(vars_, mm, mkbbs())
+                    real = sg.materialize(vars_, mm, mkbbs(), OM=OM)
                     before = sg.real_state(real)
                     rout = run_op(op, real)
                     after = sg.real_state(real)
@@ -154,7 +156,7 @@ def run(ctx, tag, U, vars_, pre, bbs, op, posts, split=(0, 0), conf_every=1, det
                 m0 = o.model()
                 stats["best"] = len(o.stack)
                 stats["sample"] = {"call": tag, "detail": detail, "decisions_on_this_path": [f"{t} = {v}" for t, v, _a, _f, _l in o.stack][:16],
-                                   "a_pre_state_of_this_path": spec_of(sg.real_state(sg.materialize(vars_, m0, mkbbs()))), "outcome": list(map(str, out.key()))}
+                                   "a_pre_state_of_this_path": spec_of(sg.real_state(sg.materialize(vars_, m0, mkbbs(), OM=OM))), "outcome": list(map(str, out.key()))}
             except Exception:  # noqa
                 pass
         names = g.names()
@@ -168,7 +170,7 @@ def run(ctx, tag, U, vars_, pre, bbs, op, posts, split=(0, 0), conf_every=1, det
             ctx.r["sat"] += 1
             ctx.r["replays"] += 1
             # replay on real networkx
-            real = sg.materialize(vars_, m, mkbbs())
+            real = sg.materialize(vars_, m, mkbbs(), OM=OM)
             before = sg.real_state(real)
             rout = run_op(op, real)
             after = sg.real_state(real)
@@ -199,7 +201,7 @@ def run(ctx, tag, U, vars_, pre, bbs, op, posts, split=(0, 0), conf_every=1, det
         nconf = ctx.r["counters"].get("paths", 0)
         if conf_every and nconf % conf_every == 0:
             m = o.model()
-            real = sg.materialize(vars_, m, mkbbs())
+            real = sg.materialize(vars_, m, mkbbs(), OM=OM)
             rout = run_op(op, real)
             sym_state, real_state = sg.post_state(g, m), sg.real_state(real)
             a, b = out.key(), rout.key()
@@ -210,7 +212,7 @@ def run(ctx, tag, U, vars_, pre, bbs, op, posts, split=(0, 0), conf_every=1, det
                 same = conf_extra(out, rout, m)
             ctx.count("conformance_replays")
             if not same:
-                ctx.harness_error(f"E2 stand-in does not conform to real networkx in {tag}", dict(detail or {}, pre_state=spec_of(sg.real_state(sg.materialize(vars_, m, mkbbs()))), symbolic=[a, spec_of(sym_state)], real=[b, spec_of(real_state)]))
+                ctx.harness_error(f"E2 stand-in does not conform to real networkx in {tag}", dict(detail or {}, pre_state=spec_of(sg.real_state(sg.materialize(vars_, m, mkbbs(), OM=OM))), symbolic=[a, spec_of(sym_state)], real=[b, spec_of(real_state)]))
 
     st = explore(pre, body, split_bits=split[0], split_index=split[1])
     if stats.get("sample") and stats.get("best", 0) >= 6 and not any(isinstance(x, dict) and "decisions_on_this_path" in x for x in ctx.r["samples"]):
